@@ -6,50 +6,56 @@ import (
 	"encoding/hex"
 	"fmt"
 	"os"
+	"runtime"
 	"runtime/debug"
 	"sort"
 	"strings"
 
 	"github.com/mlange-42/ark/ecs"
+	"verifharness/typed"
 	u "verifharness/universe"
 )
 
 // Opts configure the case runner and its monitors.
 type Opts struct {
-	MinOps, MaxOps  int
-	SweepEvery      int // state sweep every n-th op (1 = after every op)
-	DeepEvery       int // deep (typed path) sweep every n-th sweep
-	QueriesPerSweep int // sampled ad-hoc filters compared per sweep
-	StandingEvery   int // standing-filter comparison every n-th op (0 = off)
-	StatsEvery      int // stats rules every n-th op (0 = only KStats ops)
-	Twin            string // "", "same" (determinism twin), "unsafe" (ID-based twin)
-	Digest          bool
-	ReplayChecks    int // C19: number of replay-twin checkpoints per case
-	MaxComponents   int // 256, or 64 under ark_tiny
-	Avoid           map[string]bool
-	ShrinkBounds    bool
-	ShrinkConverge  bool
-	Progress        *os.File
+	MinOps, MaxOps    int
+	SweepEvery        int    // state sweep every n-th op (1 = after every op)
+	DeepEvery         int    // deep (typed path) sweep every n-th sweep
+	QueriesPerSweep   int    // sampled ad-hoc filters compared per sweep
+	StandingEvery     int    // standing-filter comparison every n-th op (0 = off)
+	StatsEvery        int    // stats rules every n-th op (0 = only KStats ops)
+	Twin              string // "", "same" (determinism twin), "unsafe" (ID-based twin)
+	Digest            bool
+	ReplayChecks      int // C19: number of replay-twin checkpoints per case
+	MaxComponents     int // 256, or 64 under ark_tiny
+	Avoid             map[string]bool
+	ShrinkBounds      bool
+	ShrinkConverge    bool
+	Progress          *os.File
 	DeadTargetQueries bool
-	FixedCaps       []int // if set, use these NewWorld args
-	StopOnViolation bool
-	NoRecordOps     bool
+	FixedCaps         []int // if set, use these NewWorld args
+	StopOnViolation   bool
+	NoRecordOps       bool
+	GC                *GCMon // C11: finalizer tracking
+	GCEvery           int    // collectability check every n ops
+	ForceGCEvery      int    // runtime.GC
+	Matrix            bool   // C14: start every case with the scripted method matrix of tuple (case index mod #tuples)() every n ops
 }
 
 // CaseResult is the outcome of one history.
 type CaseResult struct {
-	Seed      uint64
-	Case      int
-	Profile   string
-	Config    string
-	NOps      int
-	Effective int // ops that executed without (expected or skipped) panic
-	Hash      string
-	Viol      []Violation
-	Ops       []string // the op list (rendered), kept for samples / replays
-	Digests   []string
-	Cov       map[string]int64 // per-case coverage flags
-	HarnessPanic string // a panic outside any monitored call: harness defect, verdict inconclusive
+	Seed         uint64
+	Case         int
+	Profile      string
+	Config       string
+	NOps         int
+	Effective    int // ops that executed without (expected or skipped) panic
+	Hash         string
+	Viol         []Violation
+	Ops          []string // the op list (rendered), kept for samples / replays
+	Digests      []string
+	Cov          map[string]int64 // per-case coverage flags
+	HarnessPanic string           // a panic outside any monitored call: harness defect, verdict inconclusive
 }
 
 var capChoices = [][]int{nil, {1}, {2}, {3}, {8}, {64}, {1, 1}, {2, 1}, {3, 2}, {8, 2}, {64, 32}, {1024, 1}, {1, 128}}
@@ -127,6 +133,10 @@ func RunCase(seed uint64, idx int, p *Profile, o *Opts, st *Stats) (cr *CaseResu
 	if o.Avoid["F2"] {
 		pp.NoShrink = true
 	}
+	if o.Digest || o.ReplayChecks > 0 {
+		// comparisons between executions need every op to be a function of the history alone
+		pp.DetShrink = true
+	}
 	g := NewGen(r, m, &pp)
 	nops := o.MinOps
 	if o.MaxOps > o.MinOps {
@@ -142,8 +152,25 @@ func RunCase(seed uint64, idx int, p *Profile, o *Opts, st *Stats) (cr *CaseResu
 	var opLog []*Op
 	stop := false
 	var prog [32]byte
+	var script []func() *Op
+	if o.Matrix {
+		script = g.MatrixScript(idx % len(typed.Tuples))
+		nops += len(script)
+	}
 	for i := 0; i < nops && !stop; i++ {
-		op := g.Next()
+		var op *Op
+		for op == nil && len(script) > 0 && m.Locks == 0 {
+			op = script[0]()
+			script = script[1:]
+		}
+		if op == nil && len(script) > 0 && m.Locks > 0 {
+			// scripted query steps
+			op = script[0]()
+			script = script[1:]
+		}
+		if op == nil {
+			op = g.Next()
+		}
 		if o.Progress != nil {
 			binary.LittleEndian.PutUint64(prog[0:], seed)
 			binary.LittleEndian.PutUint64(prog[8:], uint64(idx))
@@ -168,6 +195,21 @@ func RunCase(seed uint64, idx int, p *Profile, o *Opts, st *Stats) (cr *CaseResu
 			resB = twin.Exec(op, x, i)
 		}
 		cr.NOps++
+		if o.Digest {
+			// which calls panic is part of the observable behaviour (C12, C20)
+			if res.Panicked {
+				dg.add("P")
+			} else {
+				dg.add(".")
+			}
+			if twin != nil && o.Twin == "same" {
+				if resB.Panicked {
+					dgB.add("P")
+				} else {
+					dgB.add(".")
+				}
+			}
+		}
 		skipped := false
 		if res.Panicked {
 			if _, sk := res.PanicVal.(skipMisuse); sk {
@@ -346,6 +388,12 @@ func RunCase(seed uint64, idx int, p *Profile, o *Opts, st *Stats) (cr *CaseResu
 			}
 			cr.Digests = append(cr.Digests, dg.String())
 		}
+		if o.ForceGCEvery > 0 && i%o.ForceGCEvery == 0 {
+			runtime.GC()
+		}
+		if o.GC != nil && o.GCEvery > 0 && i > 0 && i%o.GCEvery == 0 {
+			gcCheck(d, o, m, st, cr)
+		}
 		if replayAt[i] && m.Locks == 0 {
 			replayTwin(d, cfg, opLog, o, cr)
 		}
@@ -366,12 +414,18 @@ func RunCase(seed uint64, idx int, p *Profile, o *Opts, st *Stats) (cr *CaseResu
 		}
 		d.opIdx = nops
 		d.Sweep(true)
+		if o.GC != nil && o.GCEvery > 0 {
+			gcCheck(d, o, m, st, cr)
+		}
 		if o.StandingEvery > 0 {
 			d.CompareStanding(nil)
 		}
 		if twin != nil {
 			twin.Sweep(false)
 		}
+	}
+	if o.GC != nil {
+		o.GC.Reset()
 	}
 	cr.Viol = append(cr.Viol, d.Viol...)
 	if twin != nil {
@@ -506,3 +560,74 @@ func trimStack(s string) string {
 	}
 	return strings.Join(out, "\n")
 }
+
+func gcCheck(d *Drv, o *Opts, m *Model, st *Stats, cr *CaseResult) {
+	orphans, collected, msgs := o.GC.Check(m, 100)
+	st.GCOrphans += int64(orphans)
+	st.GCCollected += int64(collected)
+	st.GCChecks++
+	if orphans > 0 {
+		cr.Cov["gc-orphans"] += int64(orphans)
+	}
+	for _, msg := range msgs {
+		d.viol("C11", "gc-collectability", "%s", msg)
+	}
+}
+
+// BuildFrozen executes a generated history without monitors and returns the driver and model
+// (used by the concurrent-query worker, which then freezes the world).
+func BuildFrozen(seed uint64, idx int, p *Profile, o *Opts, nops int) (*Drv, *Model, *Gen) {
+	r := NewRng(mix(seed, idx))
+	cfg := DrawConfig(r, o)
+	m := NewModel()
+	st := NewStats()
+	d := NewDrv("W", cfg, m, st)
+	pp := *p
+	pp.Avoid = o.Avoid
+	g := NewGen(r, m, &pp)
+	for i := 0; i < nops; i++ {
+		op := g.Next()
+		x := m.Plan(op)
+		res := d.Exec(op, x, i)
+		if res.Panicked {
+			if _, sk := res.PanicVal.(skipMisuse); sk {
+				continue
+			}
+			if !x.Panic {
+				d.viol("C10", "valid-call-panicked", "valid operation %s panicked: %v\n%s", op, res.PanicVal, trimStack(res.Stack))
+				return d, m, g
+			}
+		}
+		m.Commit(x)
+		for _, s := range d.Exhausted() {
+			m.QueryClosed(s)
+		}
+		if op.K == KCloseQuery {
+			m.QueryClosed(op.Slot)
+		}
+	}
+	d.opIdx = nops
+	d.Sweep(false)
+	return d, m, g
+}
+
+// FilterSpecFor exposes the generator's filter drawing (for the concurrent-query worker).
+func (g *Gen) FilterSpecFor(typedOnly, wantMatch bool) *FSpec {
+	f := g.filterSpec(typedOnly, wantMatch)
+	if f.Kind != FUnsafe {
+		f.Rels = g.aliveRels(g.relTargetsFor(f, 0, 30))
+	}
+	return f
+}
+
+// QRelsFor draws per-query relation targets (alive or zero only).
+func (g *Gen) QRelsFor(f *FSpec, pct int) []RelT {
+	return g.aliveRels(g.relTargetsFor(f, relComps(f.Rels), pct))
+}
+
+// BuildTyped / BuildUnsafe / Rels expose filter construction.
+func (d *Drv) BuildTyped(f *FSpec) typed.TFilter                     { return d.buildTyped(f) }
+func (d *Drv) BuildUnsafe(f *FSpec) ecs.UnsafeFilter                 { return d.buildUnsafe(f) }
+func (d *Drv) Rels(rs []RelT, order []int, style int) []ecs.Relation { return d.rels(rs, order, style) }
+func (d *Drv) FilterOrder(f *FSpec) []int                            { return d.filterOrder(f) }
+func (d *Drv) Handle(e EID) ecs.Entity                               { return d.h(e) }
